@@ -289,13 +289,25 @@ pub fn run(thorough: bool, seed: u64, threads: usize) -> Value {
     let mut pairs = vec![];
     for a in &tys {
         for b in &tys {
-            pairs.push((a.clone(), b.clone()));
+            pairs.push((a.clone(), b.clone(), false));
+        }
+    }
+    if !thorough {
+        // the 16-bit integer types take part in the quick tier through the literal family only (single-column queries)
+        let ints: Vec<Ty> = types(true).into_iter().filter(|t| matches!(t, Ty::Int { .. })).collect();
+        for a in [gen::i(16, true), gen::i(16, false)] {
+            for b in &ints {
+                pairs.push((a.clone(), b.clone(), true));
+                if !matches!(b, Ty::Int { bits: 16, .. }) {
+                    pairs.push((b.clone(), a.clone(), true));
+                }
+            }
         }
     }
     let mut rng = gen::Rng::new(seed ^ 0xC47);
     rng.shuffle(&mut pairs);
-    let chunks: Vec<Vec<(Ty, Ty)>> = {
-        let mut c: Vec<Vec<(Ty, Ty)>> = (0..threads).map(|_| vec![]).collect();
+    let chunks: Vec<Vec<(Ty, Ty, bool)>> = {
+        let mut c: Vec<Vec<(Ty, Ty, bool)>> = (0..threads).map(|_| vec![]).collect();
         for (i, p) in pairs.into_iter().enumerate() {
             c[i % threads].push(p);
         }
@@ -332,11 +344,12 @@ pub fn run(thorough: bool, seed: u64, threads: usize) -> Value {
                         by_kind: BTreeMap::new(),
                         coerced_types: BTreeMap::new(),
                     };
-                    for (ta, tb) in chunk {
+                    for (ta, tb, lit_only) in chunk {
                         let cols = vec![("x".to_string(), ta.clone(), true), ("y".to_string(), tb.clone(), true), ("z".to_string(), tb.clone(), true)];
                         let (x, y, z) = (col("x", ta), col("y", tb), col("z", tb));
                         let no_assume = |_: &mut Enc| -> R<Vec<String>> { Ok(vec![]) };
-                        for op in ops {
+                        let pair_ops: &[BinOp] = if *lit_only { &[] } else { &ops };
+                        for op in pair_ops.iter().copied() {
                             let e1 = lx::x_to_expr(&bin(op, x.clone(), y.clone()));
                             let e2 = lx::x_to_expr(&bin(mirror(op), y.clone(), x.clone()));
                             let (c1, schema) = match coerce(&e1, &cols) {
@@ -396,6 +409,9 @@ pub fn run(thorough: bool, seed: u64, threads: usize) -> Value {
                         // (c) IN list vs OR of equalities
                         let e_in = lx::x_to_expr(&X::InList { e: Box::new(x.clone()), list: vec![y.clone(), z.clone()], negated: false });
                         let e_or = lx::x_to_expr(&bin(BinOp::Or, bin(BinOp::Eq, x.clone(), y.clone()), bin(BinOp::Eq, x.clone(), z.clone())));
+                        if *lit_only {
+                            continue;
+                        }
                         if let (Some((ci, schema)), Some((co, _))) = (coerce(&e_in, &cols), coerce(&e_or, &cols)) {
                             let d = format!("{ci}  vs  {co}");
                             let o1 = check_pair(&mut duo, &co, &ci, &schema, &no_assume);
